@@ -411,6 +411,34 @@ impl Sys {
         if flavour == 0 {
             return self.bring_up(connack_props);
         }
+        if flavour == 8 {
+            // The second connection of a Context whose first connection ended when the write of a
+            // caller's request (a PINGREQ) failed; that caller is told the context is gone for it.
+            self.auto_exit = false;
+            self.bring_up(vec![]);
+            self.apply(Ev::WriteErr);
+            self.apply(Ev::Start(OpSpec::Ping));
+            if self.dead {
+                return;
+            }
+            self.events.push("Reconnect".into());
+            self.classes.push("Reconnect".into());
+            self.w.new_wire();
+            self.m.new_wire();
+            self.connect_with(
+                ConnectSpec::default(),
+                SPacket::Connack {
+                    session_present: false,
+                    reason: 0,
+                    props: connack_props,
+                },
+            );
+            if !self.dead {
+                self.start_run();
+            }
+            self.auto_exit = true;
+            return;
+        }
         if flavour == 5 || flavour == 6 || flavour == 7 {
             // The second connection of a Context whose first connection was ended by the USER's
             // DISCONNECT - written (5), or failing in the write (6) - or by a graceful server
@@ -471,8 +499,20 @@ impl Sys {
             if flavour == 3 {
                 self.apply(Ev::PartialThenEof(first, 3));
             } else {
+                // (the read that brings the packet also brings the next one: left-over input again)
                 self.apply(Ev::WriteErr);
-                self.apply(Ev::Deliver(first));
+                self.apply(Ev::DeliverBatch(vec![
+                    first,
+                    SPacket::Publish {
+                        dup: false,
+                        qos: 0,
+                        retain: false,
+                        topic: "in/behind".into(),
+                        pid: None,
+                        props: vec![],
+                        payload: b"never looked at".to_vec(),
+                    },
+                ]));
             }
             if self.dead {
                 return;
